@@ -2,10 +2,12 @@ module verif/harness
 
 go 1.19
 
-require github.com/contiv/libOpenflow v0.0.0
+require (
+	github.com/contiv/libOpenflow v0.0.0
+	github.com/sirupsen/logrus v1.9.0
+)
 
 require (
-	github.com/sirupsen/logrus v1.9.0 // indirect
 	golang.org/x/exp v0.0.0-20230420155350-5d9e357047b1 // indirect
 	golang.org/x/sys v0.1.0 // indirect
 )
